@@ -51,6 +51,9 @@ impl ServerAuthenticationProcess {
     pub(crate) fn start_challenge(&self, cookie: &'_ str) -> Self {
         if matches!(self, Self::WaitingOnClientStatus | Self::HavePeerName(_)) {
             let challenge = rand::rng().next_u32();
+            #[cfg(feature = "verif")]
+            let challenge = ractor::verif::override_u64(ractor::verif::pt::OV_SERVER_CHALLENGE)
+                .map_or(challenge, |v| v as u32);
             let digest = crate::hash::challenge_digest(cookie, challenge);
             Self::WaitingOnClientChallengeReply(challenge, digest)
         } else {
@@ -143,6 +146,9 @@ impl ClientAuthenticationProcess {
                         let server_digest =
                             crate::hash::challenge_digest(cookie, challenge_msg.challenge);
                         let challenge = rand::rng().next_u32();
+                        #[cfg(feature = "verif")]
+                        let challenge = ractor::verif::override_u64(ractor::verif::pt::OV_CLIENT_CHALLENGE)
+                            .map_or(challenge, |v| v as u32);
                         let expected_digest = crate::hash::challenge_digest(cookie, challenge);
                         return Self::WaitingForServerChallengeAck(
                             challenge_msg,
